@@ -79,7 +79,7 @@ def run(ctx):
             jobs.append(with_nv(st, nv))
     # longer histories: random behaviours of a deeper configuration, each replayed with its final tables
     nsim = 0
-    s = ctx.tlc('Tenant', f'Tenant.Sim_{tier}.cfg', timeout=900, simulate={'num': 5000 if tier == 'quick' else 30000},
+    s = ctx.tlc('Tenant', f'Tenant.Sim_{tier}.cfg', timeout=900, simulate={'num': max(1, (6000 if tier == 'quick' else 30000) // vlib.NCPU)},   # TLC's num is per worker
                 depth=7 if tier == 'quick' else 8, workers=vlib.NCPU, tag='sim')
     if s.timed_out or not s.ok:
         raise vlib.Inconclusive('Tenant simulate run failed: ' + s.stdout[-1500:])
@@ -134,5 +134,5 @@ META = {
     'note': 'Trusted: TLC, the driver\'s projection (listing + lookups through the public service API), inmem kv store standing in '
             'for bolt.',
     'technique': 'TLA+ spec (Tenant.tla) + TLC exhaustive + replay of every TLC history on the real tenant service',
-    'quick_s': 170, 'thorough_s': 1200,
+    'quick_s': 120, 'thorough_s': 1200,
 }
